@@ -386,6 +386,106 @@ mod driver {
         })
     }
 
+    /// C03: the replica side of a PUT (handle_dht_request) and the value side of a lookup (handle_lookup_request) on a manager whose engine (local id 0) holds the model's
+    /// table and data; data is seeded through the engine's unconditional Store handler and observed through its local retrieve
+    pub fn kv_manager(case: &Value) -> Value {
+        use crate::dht::core_engine::{NodeCapacity, NodeId, NodeInfo};
+        use crate::dht::core_engine::DhtRequestWrapper;
+        use crate::dht::network_integration::DhtMessage;
+        let rt = tokio::runtime::Builder::new_multi_thread().worker_threads(2).enable_all().build().unwrap();
+        rt.block_on(async {
+            let mut mgr = manager(&s(un(case, "local.peer_id"))).await;
+            let id_in_bucket = |name: &str, j: usize| -> [u8; 32] {
+                let mut out = [0u8; 32];
+                for byte in 0..32 {
+                    let raw = un(case, &format!("{name}.{byte}")) as u8;
+                    let (lo, hi) = (byte * 8, byte * 8 + 7);
+                    if hi < j {
+                        out[byte] = 0;
+                    } else if lo > j {
+                        out[byte] = raw;
+                    } else {
+                        let k = j - lo;
+                        let keep: u8 = ((1u16 << (7 - k)) - 1) as u8;
+                        out[byte] = (raw & keep) | (1u8 << (7 - k));
+                    }
+                }
+                out
+            };
+            let raw32 = |name: &str| -> [u8; 32] {
+                let mut out = [0u8; 32];
+                for (i, b) in out.iter_mut().enumerate() {
+                    *b = un(case, &format!("{name}.{i}")) as u8;
+                }
+                out
+            };
+            let mut engine = crate::dht::core_engine::DhtCoreEngine::new(NodeId::from_bytes([0u8; 32])).expect("engine");
+            let mut boot = Vec::new();
+            for j in [3usize, 7] {
+                if un(case, &format!("len{j}")) >= 1 {
+                    boot.push(NodeInfo { id: NodeId::from_bytes(id_in_bucket(&format!("b{j}s0"), j)), address: format!("127.0.0.1:{}", 4000 + j), last_seen: SystemTime::now(), capacity: NodeCapacity::default() });
+                }
+            }
+            engine.join_network(boot).await.expect("join");
+            let is_store = case["__params"]["op"].as_str() == Some("store");
+            let key: Key = if is_store { id_in_bucket("key", case["__params"]["t"].as_u64().unwrap_or(3) as usize) } else { raw32("key") };
+            let other: Key = raw32("other");
+            fn blob(id: u64, len: u64) -> Vec<u8> {
+                let mut v = vec![0xabu8; len as usize];
+                for (i, b) in id.to_be_bytes().iter().enumerate() {
+                    if i < v.len() {
+                        v[i] = *b;
+                    }
+                }
+                v
+            }
+            fn unblob(v: &Vec<u8>) -> Value {
+                let mut idb = [0u8; 8];
+                for i in 0..8.min(v.len()) {
+                    idb[i] = v[i];
+                }
+                json!({"id": u64::from_be_bytes(idb), "len": v.len() as u64})
+            }
+            for (label, k) in [("other", &other), ("cand", &key)] {
+                if un(case, &format!("D.data@{label}.present")) == 1 {
+                    let len = un(case, &format!("D.data@{label}.v1"));
+                    if len > 512 {
+                        panic!("unknown driver outcome: a stored value over 512 bytes cannot be seeded through the engine's Store handler");
+                    }
+                    let _ = engine.handle_request(DhtRequestWrapper { id: "seed".into(), message: DhtMessage::Store { key: DhtKey::from_bytes(*k), value: blob(un(case, &format!("D.data@{label}.v0")), len), ttl: Duration::from_secs(60) } }).await;
+                }
+            }
+            mgr.dht = Arc::new(RwLock::new(engine));
+            let mut out = Map::new();
+            if is_store {
+                let message = DhtNetworkMessage {
+                    message_id: "m".into(), source: s(un(case, "msg.source")), target: None, message_type: DhtMessageType::Request,
+                    payload: DhtNetworkOperation::Put { key, value: blob(un(case, "value.id"), un(case, "value.len").min(1 << 20)) },
+                    result: None, timestamp: 0, ttl: 10, hop_count: 0,
+                };
+                let r = mgr.handle_dht_request(&message).await;
+                out.insert("accepted".into(), json!(matches!(r, Ok(DhtNetworkResult::PutSuccess { .. }))));
+            } else {
+                let kind = if un(case, "kind") == 0 { LookupRequestKind::Get } else { LookupRequestKind::FindValue };
+                let r = mgr.handle_lookup_request(&key, &s(un(case, "requester")), kind).await;
+                out.insert("ok".into(), json!(r.is_ok()));
+                let (val, key_ok) = match &r {
+                    Ok(DhtNetworkResult::GetSuccess { key: k, value, .. }) | Ok(DhtNetworkResult::ValueFound { key: k, value, .. }) => (unblob(value), *k == key),
+                    _ => (Value::Null, true),
+                };
+                out.insert("value".into(), val);
+                out.insert("key_ok".into(), json!(key_ok));
+            }
+            let mut data = Map::new();
+            for (label, k) in [("other", &other), ("cand", &key)] {
+                let v = mgr.dht.read().await.retrieve(&DhtKey::from_bytes(*k)).await.ok().flatten();
+                data.insert(format!("D.data@{label}"), v.as_ref().map(unblob).unwrap_or(Value::Null));
+            }
+            out.insert("data".into(), Value::Object(data));
+            Value::Object(out)
+        })
+    }
+
 }
 
 #[cfg(all(test, verif_replay))]
@@ -399,6 +499,7 @@ fn verif_replay_entry() {
         "dht_message" => driver::dht_message(&case),
         "closest_local" => driver::closest_local(&case),
         "lookup_cap" => driver::lookup_cap(&case),
+        "kv_manager_put" | "kv_manager_lookup" => driver::kv_manager(&case),
         other => panic!("unknown driver {other}"),
     };
     println!("VERIF-OBS {}", obs);
